@@ -51,7 +51,7 @@ def parse_trace(path):
         return evs
     for line in open(path):
         f = line.split()
-        if not f:
+        if not f or f[0] == 'S':     # S (signal) lines: SchedDW replay only
             continue
         e = {'kind': f[0], 'tid': int(f[1][2:]), 'name': f[2]}
         for kv in f[3:]:
